@@ -142,8 +142,9 @@ CHECKS = {
         engine='K+M', category='model_checking',
         text='Position bookkeeping: Kani proves one inductive step of the position invariant for next, skip_whitespace, consume_str, skip_bytes (over a line break followed '
              'by ANY scalar value, incl. astral), try_parse (thorough: next_char_as_str, skip_until_after) from an arbitrary state - so line / UTF-16 column are right along '
-             'every parser path of any length; engine M shows that the location stored by parse_number is [cursor at entry, cursor at return) on every path.  Location '
-             'nesting across a template, the stringifier and source-map tokens are not decided.',
+             'every parser path of any length; engine M shows that the location stored by parse_number is [cursor at entry, cursor at return) on every path, and that the mixed-text '
+             'assembler Value::parse_until_before (<= 5 symbolic characters; bindings, entities and the until predicate as environment) gives every static string piece exactly the text '
+             'consumed for it and the location [first character, after last).  Location nesting across a template, the stringifier and source-map tokens are not decided.',
         note='Bound: <= 4 arbitrary UTF-8 bytes per state; literals <= 7 (10) chars.  Kani cannot build a Stringifier (sourcemap builder reaches an unmodelled syscall).',
         technique='Kani (CBMC) bounded model checking + MIR symbolic execution',
         design='§4 C16',
